@@ -725,11 +725,34 @@ def run():
                                  {"src": r.get("src"), "thread": i_, "call": j_, "reqs": par["reqs"], "first_difference": first_diff(g_["names"], want["names"]),
                                   "result_here": g_["r"], "result_alone": want["r"]})
 
+    # ------------------------------------------------------------------ 8. the stack of the calling thread (an environment dependence that C12 owns)
+    # Deep or long inputs overflow a small stack and ABORT the process (no depth guard between parser and SQL generation: finding
+    # F8-stack-exhaustion of C12, thresholds per stack size recorded there).  The result of compile() therefore depends on the
+    # stack of the thread it is called on; every thread stream of this check gives its workers 256 MiB so that the dependence does
+    # not mask what C11 is about.  Recorded here (not judged): what the largest generated input does on a default 2 MiB thread.
+    probe = {"src": large[1] if len(large) > 1 else large[0], "format": False, "sig": False}
+    big = [x for x in large if x.count("||") >= 150] or [probe["src"]]
+    probe["src"] = big[0]
+    res_ = {}
+    for mb in (2, 256):
+        a = run_names([[{"par": {"n": 1, "m": 1, "reqs": [probe], "stack_mb": mb}}]], timeout=120)[0][0]
+        if isinstance(a, dict) and "threads" in a:
+            r_ = a["threads"][0][0]["r"]
+            res_["%dMiB" % mb] = "ok" if "ok" in r_ else "err" if "err" in r_ else "panic"
+        else:
+            res_["%dMiB" % mb] = "abort(rc=%s)" % (a.get("abort") if isinstance(a, dict) else "?")
+    ck.coverage["stack_dependence_probe"] = {"input": "%d-term `||` chain" % (probe["src"].count("||") + 1), "result_by_thread_stack": res_,
+                                             "owner": "C12 F8-stack-exhaustion (known_findings.d/C12.json); C11 assumes a sufficient stack"}
+    ck.count("stack-probe", json.dumps(res_, sort_keys=True))
+    if res_.get("256MiB") != "ok":
+        ck.violation("the large input does not compile even on a 256 MiB thread stack", {"src": probe["src"][:200], "got": res_})
+
     ck.proof_broken_violation(found_input=any(not ni for _, _, ni in ck.violations))
     ck.assumptions += [
         "category partial: hash seeds and thread schedules are sampled, not enumerated",
         "PRQL_VERSION_OVERRIDE is constant while compilations run (its effect on the signature comment and on `prql version:` checks is by design)",
         "multi-file outputs are compared after renaming span source ids to file paths",
+        "the calling thread has a sufficient stack: on a small one (2 MiB, the default of a spawned thread) long inputs abort the process -- an environment dependence of the result recorded as C12's F8-stack-exhaustion, probed and reported in coverage.stack_dependence_probe, not judged here",
         "PL JSON (json::from_pl) is not byte-compared: it serialises the named_args HashMap in iteration order (same root cause as F10c)",
     ]
     ck.finish(TRUSTED, "a case is one observed output of (source, options) in a context (fresh process / repetition, history step, thread, debug-log phase, file order); non-trivial = distinct (context kind, request); outputs of one request are compared across ALL contexts")
